@@ -171,9 +171,9 @@ impl<T: IndexTape> ApplyRule for T {}
 /**************************************/
 
 fn apply_plus(count: Count, diff: Diff, times: Count) -> Option<Count> {
-    let diff: Count = diff.unsigned_abs().into();
+    let absdiff: Count = diff.unsigned_abs().into();
 
-    let mult = diff.checked_mul(times)?;
+    let mult = absdiff.checked_mul(times)?;
 
-    Some(count + mult)
+    Some(if diff < 0 { count - mult } else { count + mult })
 }
